@@ -742,6 +742,8 @@ class SurfaceContainer(AbstractContainer):
                 elem._tsl_component.__dict__.update(tmp._tsl_component.__dict__)
                 if hasattr(tmp, '_tsl_args'):
                     elem._tsl_args = tmp._tsl_args
+                if hasattr(tmp, '_tsl_vertices'):
+                    elem._tsl_vertices = tmp._tsl_vertices
                 for trim, tmp_trim in zip(elem._trims, tmp._trims):
                     trim.__dict__.update(tmp_trim.__dict__)
                 new_elems.append(elem)
